@@ -105,9 +105,11 @@ structure Instance.WF (inst : Instance) : Prop where
 /-- F1: at most one request class has ready tasks (any cluster) -/
 def Instance.inF1 (inst : Instance) : Bool := inst.readyClasses.length ≤ 1
 
-/-- F2: one worker, at most two request classes with ready tasks, all classes with the default weight -/
+/-- F2: one worker, at most two request classes with ready tasks, all classes with the default weight, at most 32
+priority levels (no batch then has more than 32 cuts, so `prune_progressive` drops nothing) -/
 def Instance.inF2 (inst : Instance) : Bool :=
-  inst.workers.length = 1 && inst.readyClasses.length ≤ 2 && inst.classes.all (·.weight = 10000)
+  inst.workers.length = 1 && inst.readyClasses.length ≤ 2 && inst.classes.all (·.weight = 10000) &&
+    inst.prios.length ≤ 32
 
 def Instance.fragment (inst : Instance) : String :=
   if inst.inF1 then "F1" else if inst.inF2 then "F2" else "out"
